@@ -700,17 +700,17 @@ class C16(Check):
                     "kind": item.get("kind", "corpus"), "solver": item.get("solver")}
             groups.append((clean, [case]))
             ctx.count("corpus")
-        nspec = 24 if ctx.quick else 100
+        nspec = 20 if ctx.quick else 100
         for i in range(nspec):
             spec = random_spec(rng, ctx.quick)
             groups.append(self.cases_for(ctx, spec, exhaustive=(not ctx.quick and i % 4 == 0)))
-        for i in range(8 if ctx.quick else 30):
+        for i in range(6 if ctx.quick else 30):
             spec = random_spec(rng, ctx.quick, trial_flip=True)
             clean = observe_run(spec, None, None, False, max_calls=self.bound(spec))
             cases = [{"spec": spec, "plan": {}, "backup": bk, "conv_err": ce, "kind": "trial"}
                      for bk, ce in ((None, False), (None, True), ("newton", False))]
             groups.append((clean, cases))
-        for i in range(6 if ctx.quick else 25):
+        for i in range(5 if ctx.quick else 25):
             spec = random_spec(rng, ctx.quick, odd_options=True)
             groups.append(self.cases_for(ctx, spec, exhaustive=False))
         r = self.run_cases(ctx, groups)
